@@ -2,7 +2,7 @@
 
 import math
 import time
-from typing import Any, Dict, List, Optional, Tuple, Union
+from typing import Any, Callable, Dict, List, Optional, Tuple, Union
 from dataclasses import dataclass
 
 from .opcodes import OpCode
@@ -447,15 +447,8 @@ class VM:
 
         elif op == OpCode.BUILD_REGEX:
             pattern, flags = frame.func.constants[arg]
-            # Create a timeout callback for the regex engine
-            poll_callback = None
-            if self.time_limit is not None:
-
-                def check_timeout() -> bool:
-                    """Return True if time limit exceeded (to abort regex)."""
-                    return time.monotonic() - self.start_time > self.time_limit
-
-                poll_callback = check_timeout
+            # The regex engine polls this evaluation's deadline while matching
+            poll_callback = self._deadline_callback()
             regex = JSRegExp(pattern, flags, poll_callback)
             self.stack.append(regex)
 
@@ -1673,11 +1666,33 @@ class VM:
         # Run the function to completion (and only the function)
         return self._call_callback(func, args, this_val)
 
+    def _deadline_callback(self) -> Optional[Callable[[], bool]]:
+        """Callback the regex engine polls: has this evaluation run out of time?"""
+        if self.time_limit is None:
+            return None
+
+        def check_timeout() -> bool:
+            """Return True if time limit exceeded (to abort regex)."""
+            return time.monotonic() - self.start_time > self.time_limit
+
+        return check_timeout
+
+    def _adopt_regex(self, regex: JSRegExp) -> Any:
+        """The engine object of a RegExp, polling this evaluation's deadline.
+
+        The RegExp may have been created by an earlier eval on the same context
+        (and kept in a global): its old callback measures against that
+        evaluation's clock.
+        """
+        regex._internal.set_poll_callback(self._deadline_callback())
+        return regex._internal
+
     def _make_regexp_method(self, re: JSRegExp, method: str) -> Any:
         """Create a bound RegExp method."""
 
         def test_fn(*args):
             string = to_string(args[0]) if args else ""
+            self._adopt_regex(re)
             try:
                 return re.test(string)
             except RegexTimeoutError:
@@ -1687,6 +1702,7 @@ class VM:
 
         def exec_fn(*args):
             string = to_string(args[0]) if args else ""
+            self._adopt_regex(re)
             try:
                 return re.exec(string)
             except RegexTimeoutError:
@@ -1972,7 +1988,7 @@ class VM:
             elif isinstance(sep, JSRegExp):
                 # Split with regex using microjs.regex
                 try:
-                    regex_internal = sep._internal
+                    regex_internal = self._adopt_regex(sep)
                     parts = []
                     last_end = 0
                     pos = 0
@@ -2069,7 +2085,7 @@ class VM:
             if isinstance(pattern, JSRegExp):
                 # Replace with regex using microjs.regex
                 try:
-                    regex_internal = pattern._internal
+                    regex_internal = self._adopt_regex(pattern)
                     is_global = "g" in pattern._flags
                     capture_count = regex_internal._capture_count
 
@@ -2172,16 +2188,11 @@ class VM:
             from .regex import RegExp as InternalRegExp
 
             if isinstance(pattern, JSRegExp):
-                regex_internal = pattern._internal
+                regex_internal = self._adopt_regex(pattern)
                 is_global = "g" in pattern._flags
             else:
                 # Convert string to regex using microjs.regex
-                # Create a poll_callback if the VM has time limits
-                poll_callback = None
-                if self.time_limit is not None:
-                    poll_callback = (
-                        lambda: time.monotonic() - self.start_time > self.time_limit
-                    )
+                poll_callback = self._deadline_callback()
                 try:
                     regex_internal = InternalRegExp(
                         to_string(pattern), "", poll_callback
@@ -2247,14 +2258,10 @@ class VM:
             from .regex import RegExp as InternalRegExp
 
             if isinstance(pattern, JSRegExp):
-                regex_internal = pattern._internal
+                regex_internal = self._adopt_regex(pattern)
             else:
                 # Convert string to regex using microjs.regex
-                poll_callback = None
-                if self.time_limit is not None:
-                    poll_callback = (
-                        lambda: time.monotonic() - self.start_time > self.time_limit
-                    )
+                poll_callback = self._deadline_callback()
                 try:
                     regex_internal = InternalRegExp(
                         to_string(pattern), "", poll_callback
